@@ -63,6 +63,9 @@ func main() {
 		instrumentDir(d, filepath.Join(*out, "goat", rel), d, false, replace, stats)
 	}
 
+	// 1b. files added to package goat itself (exports for enumeration)
+	mapTree(filepath.Join(*ovl, "goatpkg"), *repo, replace)
+
 	// 2. runtime: mapped as is
 	mapTree(filepath.Join(*ovl, "vrt"), filepath.Join(*repo, "vrt"), replace)
 
